@@ -6,6 +6,7 @@ use crate::driver::{CheckResult, Failure, Known, Report, Tier};
 
 pub mod dagprops;
 pub mod build;
+pub mod inject;
 
 pub const ALL: &[&str] = &["C10", "C11"];
 
